@@ -35,7 +35,8 @@ inductive Fin where
 inductive Act where
   | submit (i : Nat)           -- the main thread submits branch i (in index order; executor.py:252-255)
   | begin (i : Nat)            -- a pool worker takes branch i from the head of the work queue
-  | finish (i : Nat) (f : Fin) -- branch i's task ends; the done-callback runs in the worker
+  | taskEnd (i : Nat) (f : Fin) -- branch i's task function ends in its worker (how: f); the worker is free
+  | finish (i : Nat) (f : Fin) -- the done-callback of that task runs (status, counters, decision)
   | timerFire (i : Nat)        -- the timer thread pops the due entry of branch i and resets the branch to PENDING
   | resubmit (i : Nat) (ckOk : Bool)   -- ... and, after its refresh checkpoint (ok / failed), submits the branch again
   | tick (d : Nat)             -- time passes
@@ -68,6 +69,7 @@ structure St where
   maxActive : Nat             -- ghost: high-water mark of `active.length`
   submitted : Nat             -- how many of the initial tasks the main thread has submitted so far
   refreshing : Option Nat     -- the branch whose resumption is between reset_to_pending and its re-submission
+  ended : List (Nat × Fin)    -- tasks whose function has ended and whose done-callback has not run yet
 
 /-- `execute` before the first task is submitted, for n > 0 branches: every branch is PENDING
 (`ExecutableWithState.__init__`).  The main thread then submits the branches one by one (`submit`), and only after
@@ -77,7 +79,7 @@ def init (n maxConc : Nat) (cfg : Policy.Cfg) : St :=
   { n := n, maxWorkers := if maxConc = 0 then n else maxConc, cfg := cfg,
     status := fun i => if i < n then .pending else .completed,
     queue := [], active := [], succ := 0, fail := 0, evt := false, suspendExc := none,
-    fatal := false, clock := 0, timers := [], out := none, maxActive := 0, submitted := 0, refreshing := none }
+    fatal := false, clock := 0, timers := [], out := none, maxActive := 0, submitted := 0, refreshing := none, ended := [] }
 
 def setStatus (s : St) (i : Nat) (b : BSt) : St :=
   { s with status := fun x => if x = i then b else s.status x }
@@ -116,11 +118,19 @@ def begin_ (s : St) (i : Nat) : Option St :=
     else some { s with queue := rest, active := s.active ++ [i],
                        maxActive := max s.maxActive (s.active.length + 1) }
 
-/-- `_on_task_complete` (executor.py:310-360). -/
-def finish (s : St) (i : Nat) (f : Fin) : Option St :=
+/-- The task function of branch i returns or raises in its worker: the worker is free again.  The done-callback
+(`finish`) normally follows at once in the same worker, but it is attached by the submitting thread after `submit`
+returned (`future.add_done_callback`, executor.py:249): a task that ends before that runs its callback later, inline on
+the submitting thread - and the freed worker may already have taken the next task. -/
+def taskEnd (s : St) (i : Nat) (f : Fin) : Option St :=
   if i ∉ s.active then none
+  else some { s with active := s.active.erase i, ended := s.ended ++ [(i, f)] }
+
+/-- `_on_task_complete` (executor.py:310-360), for a task whose function has ended. -/
+def finish (s : St) (i : Nat) (f : Fin) : Option St :=
+  if (i, f) ∉ s.ended then none
   else
-    let s := { s with active := s.active.erase i }
+    let s := { s with ended := s.ended.erase (i, f) }
     match f with
     | .ok => some (decide { (setStatus s i .completed) with succ := s.succ + 1 })
     | .err => some (decide { (setStatus s i .failed) with fail := s.fail + 1 })
@@ -199,6 +209,7 @@ def wake (s : St) : Option St :=
 def step (s : St) : Act → Option St
   | .submit i => submit_ s i
   | .begin i => begin_ s i
+  | .taskEnd i f => taskEnd s i f
   | .finish i f => finish s i f
   | .timerFire i => timerFire s i
   | .resubmit i ok => resubmit s i ok
